@@ -577,6 +577,9 @@ int snprintf(char*, size_t, const char*, ...);
 int fits_open_file(fitsfile** f, const char* name, int mode, int* status); int fits_open_diskfile(fitsfile** f, const char* name, int mode, int* status);
 int fits_create_file(fitsfile** f, const char* name, int* status); int fits_close_file(fitsfile* f, int* status); int fits_delete_file(fitsfile* f, int* status);
 void vp_report_error(int status); int vp_remove(const char* path);
+int fits_open_memfile(fitsfile** f, const char* name, int mode, void** buffer, size_t* size, size_t delta, void* reallocfn, int* status);
+int fits_create_memfile(fitsfile** f, void** buffer, size_t* size, size_t delta, void* reallocfn, int* status);
+void* malloc(size_t n);
 bool read_fits_core(fitsfile* fits); void write_fits_core(fitsfile* fits);
 int fits_get_num_hdus(fitsfile* f, int* n, int* status); int fits_movabs_hdu(fitsfile* f, int n, int* type, int* status);
 int fits_get_img_dim(fitsfile* f, int* naxis, int* status); int fits_get_img_size(fitsfile* f, int maxdim, long* naxes, int* status);
@@ -746,7 +749,7 @@ def fits_functions():
             if not r.counts.get(rule): raise ExtractionError("must-fire rule %s did not fire in %s" % (rule, wname))
         body = r.sub("R18_c_str", r"\(\"!\"\+filePath\)\.c_str\(\)", "filePath", body)            # "!" = overwrite an existing file (modelled by the disk)
         body = r.sub("R18_c_str", r"filePath\.c_str\(\)", "filePath", body)
-        body = r.sub("R29_path_argument", r"read_fits_core\(fits,\s*filePath\)", "read_fits_core(fits)", body)
+        body = r.sub("R29_path_argument", r"read_fits_core\(fits,\s*(?:filePath|\"[^\"]*\")\)", "read_fits_core(fits)", body)
         if wname == "write_fits":
             body = r.sub("R29_exception_exit", r"write_fits_core\(fits\);", "write_fits_core(fits); if (vp_thrown) return;", body, must_fire=True)
             # the guard's destructor runs at every exit AFTER its construction (returns, including those standing for exceptions, and the end)
@@ -755,6 +758,44 @@ def fits_functions():
             k = tail.rstrip().rfind("}"); body = head + tail[:k] + "vp_cleanup_dtor();\n" + tail[k:]
         _no_cxx_left(wname, body)
         out[wname] = Extracted(wname, hdr, body, r, FITSIO_H, X.find_loops(body)); out[wname].pre = helpers
+    # --- memory back end: read_fits_mem / write_fits_mem (same cores; buffer handled by the cfitsio model)
+    start, header, body, end = X.find_function(s, r"splinetable<Alloc>::read_fits_mem\s*\(")
+    r = X.Rules(); r.counts["R1_member"] = 1
+    body = _fits_common(r, body, "{ vp_thrown = 1; return false; }")
+    for rule in ("R7_throw", "R25_raii_guard"):
+        if not r.counts.get(rule): raise ExtractionError("must-fire rule %s did not fire in read_fits_mem" % rule)
+    body = r.sub("R30_report_error", r"fits_report_error\(stderr,\s*(\w+)\)", r"vp_report_error(\1)", body)
+    body = r.sub("R29_path_argument", r"read_fits_core\(fits,\s*(?:filePath|\"[^\"]*\")\)", "read_fits_core(fits)", body, must_fire=True)
+    _no_cxx_left("read_fits_mem", body)
+    out["read_fits_mem"] = Extracted("read_fits_mem", "bool read_fits_mem(void* buffer, size_t buffer_size)", body, r, FITSIO_H, X.find_loops(body))
+    start, header, body, end = X.find_function(s, r"splinetable<Alloc>::write_fits_mem\s*\(")
+    r = X.Rules(); r.counts["R1_member"] = 1
+    body = X.strip_comments(body)
+    # R22c: try{ B }catch(std::exception& ex){ throw E; } -> { B }   (the handler only re-throws with another message)
+    body = r.sub("R22_catch_rethrow", r"\}\s*catch\s*\(std::exception&\s*\w+\)\s*\{\s*throw\s+std::runtime_error\([^;]*\);\s*\}", "}", body, must_fire=True)
+    body = r.sub("R22_catch_rethrow", r"(?<![A-Za-z0-9_])try\s*\{", "{", body, must_fire=True)
+    body, helpers = file_guard(r, body)
+    body = _fits_common(r, body, "{ vp_thrown = 1; return ; }")
+    body = r.sub("R32_pair_return", r"return\s*\(std::make_pair\(buf,\s*memsize\)\);", "{ *vp_out_buf = buf; *vp_out_size = memsize; return ; }", body, must_fire=True)
+    body = r.sub("R32_realloc_callback", r",\s*realloc,", ", NULL,", body, must_fire=True)
+    body = r.sub("R29_exception_exit", r"write_fits_core\(fits\);", "write_fits_core(fits); if (vp_thrown) return ;", body, must_fire=True)
+    body = r.sub("R18_c_str", r"std::string\(ex\.what\(\)\)", "", body)
+    # the guard lives in the (former) try block: its destructor runs at every exit from that block and at the block's end
+    k0 = body.index("vp_cleanup_fits = fits;"); head, tail = body[:k0], body[k0:]
+    depth = 0; kend = None; bl = X.blank_comments_and_strings(tail)
+    for kk, ch in enumerate(bl):
+        if ch == "{": depth += 1
+        elif ch == "}":
+            if depth == 0: kend = kk; break
+            depth -= 1
+    if kend is None: raise ExtractionError("write_fits_mem: end of the guarded block not found")
+    inner, rest = tail[:kend], tail[kend:]
+    inner = r.sub("R30_guard_exit", r"(?<![A-Za-z0-9_])return\s*;", "{ vp_cleanup_dtor_mem(); return; }", inner, must_fire=True)
+    body = head + inner + "vp_cleanup_dtor_mem();\n\t" + rest
+    helpers = helpers.replace("vp_cleanup_dtor", "vp_cleanup_dtor_mem").replace("vp_cleanup_close", "vp_cleanup_close_mem").replace("fitsfile* vp_cleanup_fits;\n", "")
+    body = body.replace("vp_cleanup_close()", "vp_cleanup_close_mem()")
+    _no_cxx_left("write_fits_mem", body, extra=("make_pair", "catch", "try"))
+    out["write_fits_mem"] = Extracted("write_fits_mem", "void write_fits_mem(void** vp_out_buf, size_t* vp_out_size)", body, r, FITSIO_H, X.find_loops(body)); out["write_fits_mem"].pre = helpers
     # --- size model
     start, header, body, end = X.find_function(s, r"splinetable<Alloc>::estimateMemory\s*\(")
     r = X.Rules(); r.counts["R1_member"] = 1
